@@ -261,6 +261,8 @@ Fixpoint dedup (seen l : list (nat * nat)) : list (nat * nat) :=
    objects extended together (references nest at most 4 deep) *)
 Definition all_pairs (d o : dset) : list (nat * nat) :=
   let p0 := field_pairs d o in
+  if Nat.eqb (num_obs d) 0 then dedup [] p0     (* len(self) == 0: fields are taken over, nothing is inserted *)
+  else
   let p1 := p0 ++ ref_pairs d o p0 in
   let p2 := p1 ++ ref_pairs d o p1 in
   let p3 := p2 ++ ref_pairs d o p2 in
@@ -494,7 +496,7 @@ Definition unique_vals (d : dset) (p : string) : option (list payload) :=
 Definition step (q : quirks) (d : dset) (o : op) : option dset :=
   match o with
   | New n base => match fields d with
-                  | [] => Some (mkD n (zseq base n) (store d) [] (next d))
+                  | [] => Some (mkD n (zseq base n) [] [] (next d))      (* no fields: nothing is reachable *)
                   | _ => None end
   | Add path k two w unit vals refs => add_field d path k two w unit vals refs
   | SubsetMask m => if Nat.eqb (length m) (num_obs d) then Some (take_all (mask_idx m) d) else None
@@ -588,17 +590,55 @@ Definition match_state (d : dset) (n : nat) (flds : list (string * nat * nat)) (
 Definition set_num_obs (d : dset) (n : nat) : dset := mkD n (rowids d) (store d) (fields d) (next d).
 
 (* -- classes of the known deviations (only consulted when the specification does not match) *)
-(* the observed `rid` column as positions in the model's rid column *)
-Definition rid_perm (d : dset) (flds : list (string * nat * nat)) (objs : list (nat * oobj)) : option (list nat) :=
-  match field_obj d "rid", slookup "rid" (map (fun f => (fst (fst f), snd (fst f))) flds) with
-  | Some ob, Some oo =>
-      match lookup oo objs with
-      | Some b => let col := map cval (orows ob) in
-                  Some (map (fun v => first_index payload_eqb v col) (brows b))
-      | None => None
+(* the same comparison without object identities: every field and reference equal by value *)
+Fixpoint val_iso (fuel : nat) (ms : list (nat * obj)) (os : list (nat * oobj)) (mo oo : nat) : bool :=
+  match fuel with
+  | 0 => false
+  | S f =>
+      match lookup mo ms, lookup oo os with
+      | Some a, Some b =>
+          obj_match a b
+          && forallb (fun ar => match slookup (fst ar) (brefs b) with
+                                | Some oo' => val_iso f ms os (snd ar) oo'
+                                | None => false end) (orefs a)
+      | _, _ => false
       end
-  | _, _ => None
   end.
+Definition match_values (d : dset) (n : nat) (flds : list (string * nat * nat)) (objs : list (nat * oobj)) : bool :=
+  Nat.eqb (num_obs d) n
+  && Nat.eqb (length (fields d)) (length flds)
+  && forallb (fun f => Nat.eqb (snd f) n) flds
+  && forallb (fun f => match slookup (fst (fst f)) (fields d) with
+                       | Some mo => val_iso 8 (store d) objs mo (snd (fst f))
+                       | None => false end) flds.
+
+(* rows of the table as tuples over all fields, model and observed *)
+Definition row_sigs (n : nat) (cols : list (list payload)) : list (list payload) := transpose_keys cols n.
+Definition model_cols (d : dset) : list (list payload) :=
+  map (fun pf => match lookup (snd pf) (store d) with Some ob => map cval (orows ob) | None => [] end) (fields d).
+Definition obs_cols (d : dset) (flds : list (string * nat * nat)) (objs : list (nat * oobj)) : list (list payload) :=
+  map (fun pf => match slookup (fst pf) (map (fun f => (fst (fst f), snd (fst f))) flds) with
+                 | Some oo => match lookup oo objs with Some b => brows b | None => [] end
+                 | None => [] end) (fields d).
+Fixpoint find_row (ms : list (list payload)) (s : list payload) (used : list nat) (i : nat) : option nat :=
+  match ms with
+  | [] => None
+  | m :: r => if list_eqb payload_eqb m s && negb (existsb (Nat.eqb i) used) then Some i
+              else find_row r s used (S i)
+  end.
+Fixpoint match_rows (used : list nat) (ms os : list (list payload)) : option (list nat) :=
+  match os with
+  | [] => Some []
+  | s :: r => match find_row ms s used 0 with
+              | Some i => match match_rows (i :: used) ms r with Some p => Some (i :: p) | None => None end
+              | None => None
+              end
+  end.
+(* the permutation that turns the model's rows into the observed rows, if there is one *)
+Definition obs_perm (d : dset) (n : nat) (flds : list (string * nat * nat)) (objs : list (nat * oobj)) : option (list nat) :=
+  if Nat.eqb n (num_obs d) then
+    match_rows [] (row_sigs n (model_cols d)) (row_sigs n (obs_cols d flds objs))
+  else None.
 Definition is_perm_of_seq (p : list nat) (n : nat) : bool :=
   Nat.eqb (length p) n && forallb (fun i => existsb (Nat.eqb i) p) (seq 0 n).
 Fixpoint keys_sorted (ks : list dy) : bool :=
@@ -607,8 +647,8 @@ Fixpoint keys_sorted (ks : list dy) : bool :=
   | _ => true
   end.
 
-(* an object that has references receives fill rows (append_empty / prepend_empty go through
-   insert() with an attribute that is missing on one side) *)
+(* an object that has references receives fill rows, or an attribute exists on one side only
+   (append_empty / prepend_empty / insert() reach `empty_from`) *)
 Definition attr_fill_class (d o : dset) : bool :=
   let pr := all_pairs d o in
   let has_refs := fun (x : nat * obj) => negb (Nat.eqb (length (orefs (snd x))) 0) in
@@ -620,6 +660,51 @@ Definition attr_fill_class (d o : dset) : bool :=
                         | Some oa, Some ob =>
                             negb (list_eqb String.eqb (map fst (orefs oa)) (map fst (orefs ob)))
                         | _, _ => false end) pr.
+Fixpoint attr_fill_any (d : dset) (os : list dset) : bool :=
+  match os with
+  | [] => false
+  | o :: r => attr_fill_class d o
+              || match extend all_off d o with Some d' => attr_fill_any d' r | None => false end
+  end.
+
+(* a path "c.x" lies in collection "c" *)
+Fixpoint before_dot (s : string) : option string :=
+  match s with
+  | EmptyString => None
+  | String a r => if Ascii.eqb a "."%char then Some EmptyString
+                  else match before_dot r with Some p => Some (String a p) | None => None end
+  end.
+Definition same_collection (p q : string) : bool :=
+  match before_dot p, before_dot q with Some a, Some b => String.eqb a b | _, _ => false end.
+Definition has_field (d : dset) (p : string) : bool := match slookup p (fields d) with Some _ => true | None => false end.
+(* a nested field that only `other` has, in a collection self has as well: Collection._extend pads it
+   with len(collection), which has already grown when another field of the collection came first *)
+Definition nested_pad_class (d o : dset) : bool :=
+  negb (Nat.eqb (num_obs d) 0) && negb (Nat.eqb (num_obs o) 0)
+  && existsb (fun pf => negb (has_field d (fst pf))
+                        && existsb (fun qf => same_collection (fst pf) (fst qf)) (fields d)) (fields o).
+(* extend onto a zero-row dataset takes whole collections from other: nested fields only self has vanish *)
+Definition nested_drop_class (d o : dset) : bool :=
+  Nat.eqb (num_obs d) 0
+  && existsb (fun pf => negb (has_field o (fst pf))
+                        && existsb (fun qf => same_collection (fst pf) (fst qf)) (fields o)) (fields d).
+Fixpoint class_any (cls : dset -> dset -> bool) (d : dset) (os : list dset) : bool :=
+  match os with
+  | [] => false
+  | o :: r => cls d o || match extend all_off d o with Some d' => class_any cls d' r | None => false end
+  end.
+
+(* extend / merge: 4 = fill rows for an object with references; 5 = all values as specified but an
+   object that was shared is now two equal objects; 6 / 7 = nested collections (see above) *)
+Definition classify_extend (d : dset) (os : list dset) (s : option string) (b : obs) : Z :=
+  let other_classes :=
+    if class_any nested_pad_class d os then 6%Z
+    else if class_any nested_drop_class d os then 7%Z
+    else if attr_fill_any d os then 4%Z else 1%Z in
+  match b, merge all_off d os s with
+  | OState n flds objs, Some d' => if match_values d' n flds objs then 5%Z else other_classes
+  | _, _ => other_classes
+  end.
 
 Definition classify (d : dset) (o : op) (b : obs) : Z :=
   match o, b with
@@ -631,27 +716,27 @@ Definition classify (d : dset) (o : op) (b : obs) : Z :=
       | None => 1%Z
       end
   | Merge os (Some p), OState n flds objs =>
-      match extend_all all_off d os with
-      | Some d1 =>
-          match rid_perm d1 flds objs, sort_keys d1 p with
+      match extend_all all_off d os, merge all_off d os (Some p) with
+      | Some d1, Some d' =>
+          if match_values d' n flds objs then 5%Z else
+          match obs_perm d1 n flds objs, sort_keys d1 p with
           | Some perm, Some keys =>
               if is_perm_of_seq perm (num_obs d1) && keys_sorted (take DNaN perm keys)
-                 && match_state (take_all perm d1) n flds objs
+                 && match_values (take_all perm d1) n flds objs
               then 3%Z
-              else if existsb (attr_fill_class d) os then 4%Z else 1%Z
-          | _, _ => if existsb (attr_fill_class d) os then 4%Z else 1%Z
+              else classify_extend d os (Some p) b
+          | _, _ => classify_extend d os (Some p) b
           end
-      | None => 1%Z
+      | _, _ => 1%Z
       end
-  | Extend o', _ => if attr_fill_class d o' then 4%Z else 1%Z
-  | Merge os None, _ => if existsb (attr_fill_class d) os then 4%Z else 1%Z
-  | Merge os (Some _), _ => if existsb (attr_fill_class d) os then 4%Z else 1%Z
+  | Extend o', _ => classify_extend d [o'] None b
+  | Merge os s, _ => classify_extend d os s b
   | _, _ => 1%Z
   end.
 
 (* verdict of one history: 0 = every step equals the specification; otherwise
    16 * (index of the first deviating step) + class   (1 unexplained, 2 subset-sum, 3 unstable sort,
-   4 fill rows for an object with references) *)
+   4 fill rows for an object with references, 5 sharing lost) *)
 Fixpoint check_from (d : dset) (k : Z) (l : list (op * obs)) : Z :=
   match l with
   | [] => 0%Z
